@@ -2390,6 +2390,13 @@ def make_builtins(E):
     reg('iter', lambda v: v)
 
     def _next(g, *d):
+        if isinstance(g, ENG.GenList):
+            if g._pos < len(g):
+                g._pos += 1
+                return g[g._pos - 1]
+            if d:
+                return d[0]
+            E.throw('StopIteration')
         return E.call(E.getattr(g, '__next__'), [], {})
     reg('next', _next)
     reg('object', lambda: SObj(ENG.OBJECT))
